@@ -160,9 +160,14 @@ def formatter_model(facts):
                 items.append(("debug", nshow(norm(p[1]))))
                 continue
             n = norm(p[1])
+            p1 = p[1]
+            if n[0] == "call" and n[1] == "std::iter::IntoIterator::into_iter" and len(n[2]) == 1 and n[2][0][0] == "call" and n[2][0][1] == ENCODE:
+                # `for chunk in utf8_percent_encode(..)`: into_iter of an iterator is the iterator (core: impl<I: Iterator> IntoIterator for I)
+                n = n[2][0]
+                p1 = orig_arg(p1, 0)
             if n[0] == "call" and n[1] == ENCODE:
-                comp = classify_component(facts, body, p[1] if False else body_arg(n, 0))
-                sname, sbits = set_of_term(orig_arg(p[1], 1))
+                comp = classify_component(facts, body, body_arg(n, 0))
+                sname, sbits = set_of_term(orig_arg(p1, 1))
                 items.append(("enc", comp, sname, sbits))
             elif n[0] == "call" and n[1] == "PurlShape::package_type":
                 inner = n[2][0]
@@ -228,7 +233,9 @@ def first_flag_side(body, h, bb):
             continue
         single = lambda b_: len([p_ for p_ in body.preds()[b_] if not body.is_cleanup(p_)]) == 1  # noqa: E731
         defs_in = [dd[0] for dd in body.defs()[F] if dd[0] in lb and dd[2] == "rv"]
-        cleared = single(tT) and all(b_ == tT or body.dominates(tT, b_) for b_ in defs_in) and any(h not in body.reachable_from(tT, avoid={b_}) or b_ == tT for b_ in defs_in)
+        # every way from the first-iteration side to the next iteration stores `false` (a store on the other side as well, or
+        # after the two sides have met again, writes false over false)
+        cleared = single(tT) and (tT in defs_in or h not in body.reachable_from(tT, avoid=set(defs_in)))
         if not cleared:
             continue
         if single(tF) and (tF == bb or body.dominates(tF, bb)):
@@ -282,6 +289,9 @@ def prefix_roles(body, t, loop_header):
                     ca = canon_atom(a)
                     if ca[0] == "cmp" and ca[1] in ("Eq", "Ne") and ca[3] in (("?", "0"), ("const", 0)) and ca[2][0] == "Field" and "Enumerate" in ca[2][1] and ca[2][1].endswith(").0"):
                         first = ca[4] if ca[1] == "Eq" else (not ca[4])
+                if first is None and loop_header is not None:
+                    # .. or by a loop-carried `first` flag: `let prefix = if is_first { A } else { B }; is_first = false;`
+                    first = first_flag_side(body, loop_header, b)
                 if first is True:
                     entry = c if entry is None else ("multi", entry, c)
                 elif first is False:
